@@ -1,0 +1,87 @@
+//go:build verif
+
+// Verification hooks (build tag "verif"): expose existing unexported entry
+// points of the link layer to the external monitors in /verif. Nothing here
+// changes behaviour; with the tag off this file does not exist.
+
+package face
+
+import (
+	"io"
+	"strconv"
+	"sync"
+
+	defn "github.com/named-data/ndnd/fw/defn"
+	"github.com/named-data/ndnd/fw/dispatch"
+)
+
+// VerifTransport is an in-memory transport that records every frame handed to sendFrame.
+type VerifTransport struct {
+	transportBase
+	mu     sync.Mutex
+	frames [][]byte
+	closed chan struct{}
+}
+
+// NewVerifTransport creates a recording transport with the given properties.
+func NewVerifTransport(scope defn.Scope, linkType defn.LinkType, mtu int) *VerifTransport {
+	t := &VerifTransport{closed: make(chan struct{})}
+	t.makeTransportBase(defn.MakeNullFaceURI(), defn.MakeNullFaceURI(), PersistencyPersistent, scope, linkType, mtu)
+	t.running.Store(true)
+	return t
+}
+
+func (t *VerifTransport) String() string {
+	return "VerifTransport, FaceID=" + strconv.FormatUint(t.faceID, 10)
+}
+
+func (t *VerifTransport) SetPersistency(persistency Persistency) bool {
+	t.persistency = persistency
+	return true
+}
+
+func (t *VerifTransport) GetSendQueueSize() uint64 { return 0 }
+
+func (t *VerifTransport) sendFrame(frame []byte) {
+	t.mu.Lock()
+	t.frames = append(t.frames, append([]byte{}, frame...))
+	t.nOutBytes += uint64(len(frame))
+	t.mu.Unlock()
+}
+
+func (t *VerifTransport) runReceive() { <-t.closed }
+
+func (t *VerifTransport) Close() {
+	if t.running.Swap(false) {
+		close(t.closed)
+	}
+}
+
+// TakeFrames returns and clears the recorded frames.
+func (t *VerifTransport) TakeFrames() [][]byte {
+	t.mu.Lock()
+	defer t.mu.Unlock()
+	f := t.frames
+	t.frames = nil
+	return f
+}
+
+// VerifSend runs the link service's send path synchronously (what runSend does per queued packet).
+func VerifSend(l *NDNLPLinkService, out dispatch.OutPkt) { sendPacket(l, out) }
+
+// VerifRecv hands one incoming frame to the link service (what a transport's receive loop does).
+func VerifRecv(l LinkService, frame []byte) { l.handleIncomingFrame(frame) }
+
+// VerifReadTlvStream runs the stream framing loop over an arbitrary reader.
+func VerifReadTlvStream(r io.Reader, onFrame func([]byte)) error {
+	return readTlvStream(r, onFrame, nil)
+}
+
+// VerifPartialStore reports the number of partially reassembled messages and buffered fragment slots.
+func VerifPartialStore(l *NDNLPLinkService) (messages int, slots int) {
+	for _, v := range l.partialMessageStore {
+		messages++
+		slots += len(v)
+	}
+	return
+}
